@@ -286,6 +286,7 @@ type TLG struct {
 	ret         map[*ssa.Function][]AV
 	retOK       map[*ssa.Function][]AV // results on the exits whose error result may be nil
 	lenParams   map[any][]int
+	sentinels   map[*ssa.Global]bool
 	paramPost   map[*ssa.Function][]AV // what is known of each integer parameter when the function returns normally
 	paramPostOK map[*ssa.Function][]AV // ... when it returns with a possibly-nil error
 	paramT      map[*ssa.Function][]AV
@@ -1817,9 +1818,67 @@ func (a *fnAn) errNonNil(v ssa.Value, st tstate) bool {
 		case "errors.New", "fmt.Errorf":
 			return true
 		}
+	case *ssa.UnOp:
+		// a package-level sentinel: var errX = errors.New(...)
+		if g, ok := x.X.(*ssa.Global); ok && x.Op == token.MUL && a.t.sentinelError(g) {
+			return true
+		}
 	}
 	_, ok := st["N:"+v.Name()]
 	return ok
+}
+
+// sentinelError: a package-level error variable that is given a freshly built
+// error by its package's initialiser and is assigned nowhere else in the module.
+func (t *TLG) sentinelError(g *ssa.Global) bool {
+	if t.sentinels == nil {
+		t.sentinels = map[*ssa.Global]bool{}
+		bad := map[*ssa.Global]bool{}
+		visit := func(fn *ssa.Function, isInit bool) {
+			for _, b := range fn.Blocks {
+				for _, in := range b.Instrs {
+					st, ok := in.(*ssa.Store)
+					if !ok {
+						continue
+					}
+					gl, ok := st.Addr.(*ssa.Global)
+					if !ok || !isErrorType(deref(gl.Type())) {
+						continue
+					}
+					fresh := false
+					switch v := st.Val.(type) {
+					case *ssa.MakeInterface:
+						fresh = true
+					case *ssa.Call:
+						n := calleeName(v.Common())
+						fresh = n == "errors.New" || n == "fmt.Errorf"
+					}
+					if isInit && fresh {
+						t.sentinels[gl] = true
+					} else {
+						bad[gl] = true
+					}
+				}
+			}
+		}
+		for _, pk := range t.c.P.SSA.AllPackages() {
+			if pk.Pkg == nil {
+				continue
+			}
+			if init := pk.Func("init"); init != nil {
+				visit(init, true)
+			}
+		}
+		for _, fn := range t.c.Funcs() {
+			if fn.Name() != "init" {
+				visit(fn, false)
+			}
+		}
+		for gl := range bad {
+			delete(t.sentinels, gl)
+		}
+	}
+	return t.sentinels[g]
 }
 
 func (t *TLG) markField(f *types.Var, src string) {
